@@ -4,19 +4,20 @@ SD=$1; ids=$2
 [ -f "$SD/patch.diff" ] || { echo "no patch in $SD"; exit 3; }
 WT=$(mktemp -d /tmp/verif-seed-XXXXXX)
 git -C /repo worktree add -q --detach "$WT" HEAD || exit 3
-trap 'git -C /repo worktree remove --force "$WT" 2>/dev/null; rm -rf "$WT" /tmp/verif-seed-evidence /tmp/replay' EXIT
+trap 'git -C /repo worktree remove --force "$WT" 2>/dev/null; rm -rf "$WT" "$WT.evidence" "$WT.demo.out"' EXIT
 git -C "$WT" apply "$SD/patch.diff" || { echo "PATCH DOES NOT APPLY"; exit 3; }
 echo "--- patch: $(git -C "$WT" diff --stat | tail -1)"
 echo "--- suite with the change:"; VERIF_REPO=$WT sh /verif/scripts/suite_summary.sh
 if [ -z "${SKIP_DEMO:-}" ] && [ -f "$SD/demo/run.sh" ]; then
-  # demo scripts refer to their own worktree path; run them there, with and without the change
+  # demo scripts refer to their own worktree path; run them there. The worktree is first put into exactly the state
+  # "HEAD + patch.diff" (never git stash: the stash is shared by all worktrees of a repository).
   O=$(dirname "$SD/demo")
   if git -C "$O" rev-parse --git-dir >/dev/null 2>&1 && [ "$(git -C "$O" rev-parse --show-toplevel)" = "$O" ]; then
-    (cd "$O" && sh demo/run.sh >/tmp/verif-demo.out 2>&1; echo "--- demo WITH change: exit $?"; tail -3 /tmp/verif-demo.out)
-    (cd "$O" && git checkout -q -- go.work.sum 2>/dev/null; git stash -q && sh demo/run.sh >/tmp/verif-demo.out 2>&1; echo "--- demo WITHOUT change: exit $?"; tail -2 /tmp/verif-demo.out; git checkout -q -- go.work.sum 2>/dev/null; git stash pop -q)
+    (cd "$O" && git checkout -q -- . && git apply patch.diff && sh demo/run.sh >$WT.demo.out 2>&1; echo "--- demo WITH change: exit $?"; tail -3 $WT.demo.out)
+    (cd "$O" && git checkout -q -- . && sh demo/run.sh >$WT.demo.out 2>&1; echo "--- demo WITHOUT change: exit $?"; tail -2 $WT.demo.out; git checkout -q -- . ; git apply patch.diff)
   fi
 fi
 for id in $ids; do
   echo "--- check $id against the change:"
-  VERIF_REPO=$WT VERIF_EVIDENCE_DIR=/tmp/verif-seed-evidence /verif/bin/verif check $id ${TIER:+--tier $TIER} 2>&1 | grep -v KNOWN-FINDING | cut -c1-500 | head -${SEED_LINES:-5}
+  VERIF_REPO=$WT VERIF_EVIDENCE_DIR=$WT.evidence /verif/bin/verif check $id ${TIER:+--tier $TIER} 2>&1 | grep -v KNOWN-FINDING | cut -c1-500 | head -${SEED_LINES:-5}
 done
